@@ -206,6 +206,14 @@ pub fn gen_mapping(r: &mut Rng, o: &GenOpts) -> String {
     if r.chance(1, 6) && s.ends_with(nl) {
         // last line without terminator
         s.truncate(s.len() - nl.len());
+        // ... whose last name ends in a character that str::trim would strip (it is part of the name)
+        if r.chance(1, 3) && !s.is_empty() && !s.ends_with(':') {
+            s.push(*r.pick(&['\u{2028}', '\u{85}', '\u{3000}', '\u{a0}']));
+        }
+    }
+    if r.chance(1, 40) && !s.starts_with('#') && !s.is_empty() {
+        // the first class name starts with such a character
+        s.insert(0, *r.pick(&['\u{85}', '\u{2028}', '\u{feff}']));
     }
     s
 }
